@@ -29,6 +29,12 @@ type SendScenario struct {
 	Batches [][]MsgSpec `json:"batches,omitempty"`
 	// PreRender renders every message once before sending (so Send does not see a fresh Msg).
 	PreRender bool   `json:"preRender,omitempty"`
+	// Resend: after the operation, every message that carries a send error is handed to a
+	// second DialAndSend on the same Client (a caller retrying what failed).
+	Resend bool `json:"resend,omitempty"`
+	// DialFail: the n-th call of the dial function (1-based) fails without opening a connection
+	// (the client then tries its fallback port, if it has one).
+	DialFail int `json:"dialFail,omitempty"`
 	Sched     uint64 `json:"sched"`
 	Policy    sim.Policy `json:"policy,omitempty"`
 }
@@ -52,6 +58,9 @@ type SendRun struct {
 	DialCall  *CallRec
 	SendCalls []*CallRec
 	CloseCall *CallRec
+	// ResendCall is the retry of the failed messages (nil if none took place); Resent lists them.
+	ResendCall *CallRec
+	Resent     map[string]bool
 	// Reference renderings taken by the harness with healthy producers.
 	Pre, Post [][][]byte
 	PostErr   [][]error
@@ -100,7 +109,7 @@ func execSendHook(t *testing.T, sc *SendScenario, logger mlog.Logger, hook func(
 		pol.Kind = "random"
 	}
 	run.Res = RunSim(t, sc.Sched, pol, 0, 2*time.Hour, func(k *sim.Kernel) (func(), func()) {
-		env := &NetEnv{K: k, Srv: refsmtpd.New(k, sc.Server, TLSMat), Faults: []sim.ConnFaults{sc.Conn}, Host: sc.Client.host()}
+		env := &NetEnv{K: k, Srv: refsmtpd.New(k, sc.Server, TLSMat), Faults: []sim.ConnFaults{sc.Conn}, Host: sc.Client.host(), DialFail: sc.DialFail}
 		run.Env = env
 		if hook != nil {
 			hook(env)
@@ -183,6 +192,16 @@ func execSendHook(t *testing.T, sc *SendScenario, logger mlog.Logger, hook func(
 					ms = msgsOf(run.Built[0])
 				}
 				run.SendCalls = append(run.SendCalls, env.Call("DialAndSend", func() error { return c.DialAndSend(ms...) }))
+			case "dialandsend2":
+				// two DialAndSend calls on the same Client (the peer may behave differently)
+				for _, bs := range run.Built {
+					ms := msgsOf(bs)
+					call := env.Call("DialAndSend", func() error { return c.DialAndSend(ms...) })
+					run.SendCalls = append(run.SendCalls, call)
+					if !call.Returned {
+						break
+					}
+				}
 			case "send":
 				run.DialCall = env.Call("DialWithContext", func() error { return c.DialWithContext(context.Background()) })
 				if run.DialCall.Err == nil && run.DialCall.Panic == nil && run.DialCall.Returned {
@@ -208,6 +227,27 @@ func execSendHook(t *testing.T, sc *SendScenario, logger mlog.Logger, hook func(
 			}
 			if k.Aborting() {
 				return
+			}
+			if sc.Resend {
+				var again []*mail.Msg
+				run.Resent = map[string]bool{}
+				for _, bs := range run.Built {
+					for _, b := range bs {
+						if b.Msg != nil && b.Msg.HasSendError() {
+							again = append(again, b.Msg)
+							run.Resent[b.Spec.Token] = true
+						}
+					}
+				}
+				if len(again) > 0 {
+					if run.CloseCall == nil && sc.Op != "dialandsend" {
+						run.CloseCall = env.Call("Close", c.Close)
+					}
+					run.ResendCall = env.Call("DialAndSend(resend)", func() error { return c.DialAndSend(again...) })
+					if k.Aborting() {
+						return
+					}
+				}
 			}
 			for _, bs := range run.Built {
 				var st []MsgState
